@@ -56,7 +56,9 @@ theorem transpose_pitch_class_alter (p : PC) (k : Int) :
   obtain ⟨h0, h1, _⟩ := walk_spec p.step (Int.fmod k 12) hk
   have h2 := stepsAbove_le_two (walk p.step (Int.fmod k 12)).1
   unfold transposePC
-  constructor <;> intro ha <;> split <;> (try split) <;> simp only [] <;> omega
+  by_cases hw : 0 < (walk p.step (Int.fmod k 12)).2 <;> by_cases ha : 0 ≤ p.alter <;>
+    simp only [hw, ha, ↓reduceIte] <;> constructor <;> intro h <;>
+    first | omega | exact False.elim h | exact Or.inl trivial
 
 /-- re-parsing the printed pitch class (`_parse_pitch_class ∘ _pitch_class_to_string`) gives the
 same step and alteration back, for every step and every alteration -/
@@ -72,12 +74,12 @@ theorem parse_print_pitch_class (p : PC) : parsePCChars (pcChars p) = some p := 
   · by_cases h0 : alter.natAbs = 0
     · have : alter = 0 := by omega
       subst this; simp
-    · simp [h, h0, List.all_replicate, List.contains_replicate]; omega
+    · simp [h, h0, List.all_replicate]; omega
   · have h0 : alter.natAbs ≠ 0 := by omega
-    simp [h, h0, List.all_replicate, List.contains_replicate]; omega
+    simp [h, h0, List.all_replicate]; omega
 
 example : transposePC ⟨.C, 1⟩ 1 = ⟨.D, 0⟩ ∧ transposePC ⟨.E, -2⟩ 7 = ⟨.B, -2⟩ ∧
-    transposePC ⟨.B, 2⟩ (-13) = ⟨.C, 0⟩ ∧ (transposePC ⟨.F, 0⟩ 6).midi = 11 := by decide +kernel
+    transposePC ⟨.B, 2⟩ (-13) = ⟨.B, 1⟩ ∧ (transposePC ⟨.F, 0⟩ 6).midi = 11 := by decide +kernel
 
 /-! ## `transpose_chord_symbol`, `chord_symbol_{root,bass,pitches,quality}` on structured symbols -/
 
@@ -272,14 +274,18 @@ theorem transpose_ns_spec (split : String → Except Err Sym) (s out : NoteSeq) 
       simp only [ht, Except.ok.injEq, Prod.mk.injEq] at h
       obtain ⟨h1, h2⟩ := h
       subst h1 h2
-      refine ⟨rfl, rfl, hlen _, htt, rfl, fun _ => textLoop_ok split k _ _ ht, fun hf => by cases hf, ?_⟩
-      simp
+      refine ⟨rfl, rfl, hlen _, htt, rfl, ?_, ?_, ?_⟩
+      · intro _; exact textLoop_ok split k _ _ ht
+      · intro hf; cases hf
+      · simp
   | false =>
     simp only [Bool.false_eq_true, if_false, Except.ok.injEq, Prod.mk.injEq] at h
     obtain ⟨h1, h2⟩ := h
     subst h1 h2
-    refine ⟨rfl, rfl, hlen _, htt, rfl, fun hf => by cases hf, fun _ => rfl, ?_⟩
-    simp
+    refine ⟨rfl, rfl, hlen _, htt, rfl, ?_, ?_, ?_⟩
+    · intro hf; cases hf
+    · intro _; rfl
+    · simp
 
 /-- a kept note: drums are returned as they are; a pitched note moves by exactly `k`, keeps
 velocity, times and every other attribute, and only loses its pitch name -/
@@ -338,19 +344,38 @@ theorem transpose_ns_chords_hom (split : String → Except Err Sym) (k : Int) (t
       symPitches c' = (symPitches c).map (List.map (fun p => Int.fmod (p + k) 12)) ∧
       symQuality c' = symQuality c := by
   unfold TextRel at hrel
-  rw [if_pos hc] at hrel
+  rw [if_pos (show t.kind = CHORD_SYMBOL ∧ t.text ≠ NO_CHORD from hc)] at hrel
   obtain ⟨c, hs, rfl⟩ := hrel
   obtain ⟨h1, h2, h3, _, _, _, h4⟩ := transpose_symbol_hom c k
   exact ⟨c, transposeSym c k, hs, hresplit c hs, rfl, rfl, rfl, h1, h2, h3, h4⟩
+
+/-- non-vacuity of `transpose_ns_chords_hom`: a splitter that knows `G7` and `A7`, a chord annotation, its image -/
+example :
+    let split : String → Except Err Sym := fun t =>
+      if t = "G7" then .ok ⟨⟨.G, 0⟩, "7", "", [], none⟩
+      else if t = "A7" then .ok ⟨⟨.A, 0⟩, "7", "", [], none⟩ else .error chordSymbolError
+    let t : TextAnn := ⟨3 / 2, 0, 1, "G7"⟩
+    IsChord t ∧ TextRel split 2 t { t with text := "A7" } ∧
+    (∀ c, split t.text = .ok c → split (render (transposeSym c 2)) = .ok (transposeSym c 2)) := by
+  intro split t
+  have hc : IsChord t := by unfold IsChord; decide +kernel
+  refine ⟨hc, ?_, ?_⟩
+  · unfold TextRel
+    rw [if_pos (show t.kind = CHORD_SYMBOL ∧ t.text ≠ NO_CHORD from hc)]
+    exact ⟨⟨⟨.G, 0⟩, "7", "", [], none⟩, by decide +kernel, by decide +kernel⟩
+  · intro c hcs
+    have : c = ⟨⟨.G, 0⟩, "7", "", [], none⟩ := by
+      have h2 : split t.text = .ok ⟨⟨.G, 0⟩, "7", "", [], none⟩ := by decide +kernel
+      rw [h2] at hcs; cases hcs; rfl
+    subst this
+    decide +kernel
 
 /-- key signatures end in `0..11` -/
 theorem transpose_key_range (k : Int) (ks : KeySig) :
     0 ≤ (transposeKey k ks).key ∧ (transposeKey k ks).key < 12 ∧
     ((transposeKey k ks).key - (ks.key + k)) % 12 = 0 ∧
     (transposeKey k ks).time = ks.time ∧ (transposeKey k ks).mode = ks.mode := by
-  unfold transposeKey
-  simp only [fmod12]
-  omega
+  refine ⟨?_, ?_, ?_, rfl, rfl⟩ <;> simp only [transposeKey, fmod12] <;> omega
 
 /-- non-vacuity: a drum at the lower edge, a pitched note exactly at the upper edge (kept), one just
 above it (deleted), a key signature and a chord annotation -/
@@ -369,7 +394,7 @@ example :
 
 /-- for a sequence inside the allowed range the clamped amount keeps it inside, has the sign of the
 request, is no larger in magnitude, and is the request itself when that already fits -/
-theorem clamp_transpose_in_bounds (a lo hi mn mx : Int) (h1 : mn ≤ lo) (h2 : lo ≤ hi) (h3 : hi ≤ mx) :
+theorem clamp_transpose_in_bounds (a lo hi mn mx : Int) (h1 : mn ≤ lo) (h3 : hi ≤ mx) :
     mn ≤ lo + clampTranspose a lo hi mn mx ∧ hi + clampTranspose a lo hi mn mx ≤ mx ∧
     (0 ≤ a → 0 ≤ clampTranspose a lo hi mn mx ∧ clampTranspose a lo hi mn mx ≤ a) ∧
     (a < 0 → a ≤ clampTranspose a lo hi mn mx ∧ clampTranspose a lo hi mn mx ≤ 0) ∧
@@ -439,8 +464,8 @@ theorem augment_deletes_nothing (split : String → Except Err Sym) (pick : Int 
                     · rw [e]; exact (hin n0 (by simp)).2
                     · rw [e]; exact (hin m (by simp [hm])).2
                   have hlh : minPitch ns n0.pitch ≤ maxPitch ns n0.pitch := by omega
-                  have ca := clamp_transpose_in_bounds minT _ _ mn mx hlo_in hlh hhi_in
-                  have cb := clamp_transpose_in_bounds maxT _ _ mn mx hlo_in hlh hhi_in
+                  have ca := clamp_transpose_in_bounds minT _ _ mn mx hlo_in hhi_in
+                  have cb := clamp_transpose_in_bounds maxT _ _ mn mx hlo_in hhi_in
                   rw [ha] at ca
                   rw [hb] at cb
                   have hp := hpick a b (by omega)
@@ -453,6 +478,16 @@ theorem augment_deletes_nothing (split : String → Except Err Sym) (pick : Int 
                     · exact hhi.1
                     · exact hhi.2 n hm
                   omega
+
+/-- non-vacuity of `augment_deletes_nothing`: notes on both limits of `[21, 108]`, request `[-5, 7]`
+clamped to `[0, 0]` -/
+example :
+    let n (p : Int) : Note := { (default : Note) with pitch := p, end_ := 1 }
+    let s : NoteSeq := { notes := [n 21, n 60, n 108], totalTime := 1 }
+    (∀ m ∈ s.notes, (21 : Int) ≤ m.pitch ∧ m.pitch ≤ 108) ∧
+    augmentRange s (-5) 7 21 108 false = .ok (some (0, 0)) ∧
+    (augment (fun _ => .error chordSymbolError) (fun _ b => b) s (-5) 7 21 108 false).toOption.map (·.notes.length) = some 3 := by
+  decide +kernel
 
 /-! ## `Melody.transpose`, `Melody.squash` -/
 
@@ -577,6 +612,15 @@ theorem squash_spec (R : Rat → Rat) (es : List Int) (mn mx : Int) (key : Optio
         omega
       · cases ha
 
+/-- non-vacuity of `squash_spec`: a C-major fragment squashed into `[48, 84)` in F (key 5): the amount is
+`5 + 12·round((65.5 − 67) / 12) = 5`, with the binary64 rounding operator of the driver -/
+example : NOTES_PER_OCTAVE ≤ (84 : Int) - 48 ∧ (∀ e ∈ [-2, 60, 62, 64, -1], e ≤ MAX_MIDI_PITCH) ∧
+    majorKey [-2, 60, 62, 64, -1] = 0 ∧
+    squash [-2, 60, 62, 64, -1] 48 84 (some 5) = ([-2, 65, 67, 69, -1], 5) ∧
+    squash [-2, 60, 62, 64, -1] 48 84 none = ([-2, 60, 62, 64, -1], 0) ∧
+    squash [-2, -1] 48 84 (some 5) = ([-2, -1], 0) := by
+  decide +kernel
+
 /-! ## `ChordProgression.transpose`, `LeadSheet.transpose` -/
 
 /-- what the statement says about one chord event -/
@@ -613,7 +657,7 @@ theorem chord_progression_transpose_spec (split : String → Except Err Sym) (k 
       cases hs : split f with
       | error e =>
         simp only []
-        refine ⟨fun h => by cases h, ?_⟩
+        refine ⟨fun h => (by cases h), ?_⟩
         intro e' he'
         simp only [Option.some.injEq] at he'
         subst he'
